@@ -44,7 +44,7 @@ def r1_merge(ctx):
     ok = sym.same(asg["stops"][0].ast.value, f"np.maximum.accumulate({iv}.stop)")
     if not ok and any("np.maximum.accumulate(" in u(n.ast.value) for n in asg["stops"]):
         raise Unrecognised(f"{f.where}: the running maximum of the stops is computed in a form the checker cannot compare ({'; '.join(u(n.ast) for n in asg['stops'])})")
-    ctx.ob(f.where, "running stop = cumulative maximum of the stops (nested intervals do not shorten a run)", ok, u(asg["stops"][0].ast.value), key="C08-R1|running-max")
+    ctx.ob(f.where, "running stop = cumulative maximum of the stops (nested intervals do not shorten a run)", ok, u(asg["stops"][0].ast.value), key="C08-R1|running-max", definite=True)
     # padding
     adds = [n for n in g.stmt_nodes(ast.AugAssign) if u(n.ast.target) == "stops" and isinstance(n.ast.op, ast.Add)]
     subs = [n for n in g.stmt_nodes(ast.AugAssign) if u(n.ast.target).endswith(".stop") and isinstance(n.ast.op, ast.Sub)]
@@ -62,12 +62,12 @@ def r1_merge(ctx):
         pad = diff - run
         if diff - raw == sym.Poly.atom(dist) or diff == raw:
             ctx.ob(f.where, "a new run starts iff next start > previous RUNNING stop (the cumulative maximum, not the previous interval's own stop: an interval nested in an "
-                   "earlier, longer one must not end the run)", False, u(tv), key="C08-R1|strict-test")
+                   "earlier, longer one must not end the run)", False, u(tv), key="C08-R1|strict-test", definite=True)
             return
         if not (pad == sym.Poly.atom(dist) or pad == sym.Poly()):
             raise Unrecognised(f"{f.where}: the new-run test `{u(tv)}` is in a form the checker cannot compare")
         ctx.ob(f.where, "gaps of up to `distance` are bridged: the running stop is padded by exactly `distance` before the test", pad == sym.Poly.atom(dist), f"+ {pad}", key="C08-R1|pad-add")
-        ctx.ob(f.where, "a new run starts iff next start > previous running stop (strict: touching intervals merge)", isinstance(op, ast.Gt), u(tv), key="C08-R1|strict-test")
+        ctx.ob(f.where, "a new run starts iff next start > previous running stop (strict: touching intervals merge)", isinstance(op, ast.Gt), u(tv), key="C08-R1|strict-test", definite=True)
     else:
         ctx.need(len(adds) == 1 and len(subs) == 1, "merge_intervals: padding add / remove not found")
         pa, ps = sym.poly(adds[0].ast.value), sym.poly(subs[0].ast.value)
@@ -76,7 +76,7 @@ def r1_merge(ctx):
         fa, fs = _facts_at(g, adds[0]), _facts_at(g, subs[0])
         ctx.ob(f.where, "padding is added and removed under the same condition", fa == fs and (f"(0)<({dist})", True) in fa, f"{sorted(fa)} / {sorted(fs)}", key="C08-R1|pad-guard")
         ok = sym.canon(test.ast.value) == sym.canon(sym.parse_expr(f"{iv}.start[1:] > stops[:-1]"))
-        ctx.ob(f.where, "a new run starts iff next start > previous running stop (strict: touching intervals merge)", ok, u(test.ast.value), key="C08-R1|strict-test")
+        ctx.ob(f.where, "a new run starts iff next start > previous running stop (strict: touching intervals merge)", ok, u(test.ast.value), key="C08-R1|strict-test", definite=True)
         ok = g.path([adds[0]], [test]) is not None and g.path([test], [subs[0]]) is not None and g.path([test], adds) is None
         ctx.ob(f.where, "order: pad, test, un-pad", ok, "", key="C08-R1|order")
     env = {k: v[0].ast.value for k, v in asg.items() if len(v) == 1}
@@ -88,7 +88,7 @@ def r1_merge(ctx):
     ctx.ob(f.where, "merged interval = (start of the run's first interval, running stop at the run's last interval)", ok, "", key="C08-R1|result")
     asserts = [n for n in g.nodes if n.kind == "stmt" and isinstance(n.ast, ast.Assert)]
     ok = any(sym.canon(a.ast.test) == sym.canon(sym.parse_expr(f"np.all({iv}.start[:-1] <= {iv}.start[1:])")) for a in asserts)
-    ctx.ob(f.where, "unsorted input is rejected", ok, "", key="C08-R1|sorted-precondition")
+    ctx.ob(f.where, "unsorted input is rejected", ok, "", key="C08-R1|sorted-precondition", definite=True)
 
 
 def _lexsort_keys(call):
@@ -154,7 +154,7 @@ def location_sorted(ctx, rid):
     ags = [c for c in func_calls(h.node) if u(c.func) in ("np.argsort",) or (isinstance(c.func, ast.Attribute) and c.func.attr == "argsort")]
     if ls:
         ctx.ob(h.where, "genomic locations sort by chromosome code, then position", _lexsort_keys(ls[0]) == ["self.position", "self.chromosome.raw()"], str(_lexsort_keys(ls[0])),
-               key=f"{rid}|location-sorted")
+               key=f"{rid}|location-sorted", definite=True)
         return
     if len(ags) != 1:
         raise Unrecognised(f"{h.where}: genomic locations are sorted in a form the checker does not know")
@@ -176,7 +176,7 @@ def location_sorted(ctx, rid):
     if verdict is None:
         raise Unrecognised(f"{h.where}: genomic locations are sorted by the combined key `{u(key)}`: cannot decide that the multiplier exceeds every position")
     ctx.ob(h.where, "genomic locations sort by chromosome code, then position: a combined key chromosome*M + position orders like the pair only if M exceeds every "
-           "position (with M = the largest position, the last position of one chromosome ties with position 0 of the next)", verdict, u(key), key=f"{rid}|location-sorted")
+           "position (with M = the largest position, the last position of one chromosome ties with position 0 of the next)", verdict, u(key), key=f"{rid}|location-sorted", definite=True)
 
 
 def r3_overlap_family(ctx):
@@ -271,7 +271,7 @@ def r4_clamps(ctx):
             continue
         if (not low_ok and not low_any) or (not up_ok and (not up_any or up_agg)):
             ctx.ob(c.where, "clip: the input is returned untouched only where no start is below 0 and no stop is above the size of its own contig (a bound taken over all "
-                   "contigs says nothing about the row's own contig)", False, f"return {iv} under {sorted(k for k, v in facts if v)}", key="C08-R4|clip-passthrough")
+                   "contigs says nothing about the row's own contig)", False, f"return {iv} under {sorted(k for k, v in facts if v)}", key="C08-R4|clip-passthrough", definite=True)
             continue
         raise Unrecognised(f"{c.where}: clip returns its input under {sorted(facts)}: cannot decide that nothing sticks out there")
     ctx.need(e is not None, "clip: replace(...) not found")
